@@ -6,6 +6,7 @@ import VlsModel.Gen.FnApproverC06
 import VlsModel.Gen.FnNodeApprove
 import VlsModel.Gen.FnNodeAdd
 import VlsModel.Gen.FnChanRestore
+import VlsModel.Gen.FnNodePrune
 import VlsModel.Lemmas.FnGen
 import VlsModel.Lemmas.PaymentsFn
 import VlsModel.Lemmas.PaymentsFnSummary
@@ -1422,5 +1423,94 @@ example : (Channel.restore_payments (PaymentPreimage := Nat)
         id0 := 3 } { payments := [] }).toOption.map (fun s => (Rs.omapGet s.payments 7).map (fun p => p.outgoing))
     = some (some [(3, 1000)]) := by decide
 end ChanRestore
+
+/-! ## Round 10 (b4): `NodeState::validate_and_apply_payments` (node.rs, the `#[cfg(test)]` composition used by the repo's own
+unit tests) — validation first, and nothing applied when it refuses (own target file `fn_targets/NodePay.b4.json`, area `NodePay`) -/
+section ValidateAndApply
+open VlsModel.Gen.FnNodePay (NodeState)
+variable {PH CI PP V : Type} [DecidableEq PH] [DecidableEq CI]
+
+theorem C06_fn_validate_and_apply_payments (cl : V → Nat → Nat → Rs.M Unit) (bl : V → Nat → Nat → Option Nat → Rs.M (Option Unit))
+    (pf : String → Bool) (eb : V → Bool) (dp : PP) (s : NodeState PH CI PP) (c : CI) (inS outS : List (PH × Nat))
+    (bd : Nat × Nat) (v : V) :
+    NodeState.validate_and_apply_payments cl bl pf eb dp s c inS outS bd v
+      = (do let _ ← NodeState.validate_payments cl bl pf eb s c inS outS bd v
+            NodeState.apply_payments eb dp s c inS outS bd v none) ∧
+    (∀ e, NodeState.validate_payments cl bl pf eb s c inS outS bd v = .error e →
+      NodeState.validate_and_apply_payments cl bl pf eb dp s c inS outS bd v = .error e) := by
+  constructor
+  · unfold NodeState.validate_and_apply_payments
+    cases NodeState.validate_payments cl bl pf eb s c inS outS bd v with
+    | error e => rfl
+    | ok u =>
+      simp only [Rs.bind_ok]
+      cases NodeState.apply_payments eb dp s c inS outS bd v none <;> rfl
+  · intro e he
+    unfold NodeState.validate_and_apply_payments
+    rw [he]; rfl
+end ValidateAndApply
+
+/-! ## Round 10 (b4): `NodeState::is_invoice_prunable` / `prune_time` (node.rs) — the pruning guard of approved invoices
+
+Until now outside the subset (`Duration` arithmetic).  Area `NodePrune` (`fn_targets/NodePrune.b4.json`): `Duration` `+` and `>`
+go through two declared externals (`dur_add`, panicking on overflow like `Duration::add`, and `dur_gt`), the two prune-time
+constants are external constants (values regenerated by `x_payments.py`), the block under the non-default feature
+`timeless_workaround` is dropped.  Stated on the generated definition: **an approved invoice / keysend is prunable only when
+its routed payment is fulfilled or carries no outgoing value on any channel, and only strictly after creation + expiry + prune
+time** — the guard of `Node.heartbeat` in `Model/Payments.lean` (`C06_step`; the known finding `C06_main_false_prune` is the
+fulfilled-while-still-in-a-commitment side of it). -/
+section NodePrune
+open VlsModel.Gen.FnNodePrune (PaymentState RoutedPayment PaymentType)
+variable {D PH PP CI : Type}
+
+theorem C06_fn_prune_time (fs : Nat → D) (ipt kpt : D) (add : D → D → Rs.M D) (ps : PaymentState D) :
+    Gen.FnNodePrune.NodeState.prune_time fs ipt kpt add ps
+      = add (fs 0) (match ps.payment_type with | PaymentType.Invoice => ipt | PaymentType.Keysend => kpt) := by
+  unfold Gen.FnNodePrune.NodeState.prune_time
+  cases add (fs 0) (match ps.payment_type with | PaymentType.Invoice => ipt | PaymentType.Keysend => kpt) <;> rfl
+
+theorem C06_fn_is_invoice_prunable (add : D → D → Rs.M D) (fs : Nat → D) (ipt kpt : D) (gt : D → D → Bool)
+    (now : D) (hash : PH) (st : PaymentState D) (p : RoutedPayment PP CI)
+    (h : Gen.FnNodePrune.NodeState.is_invoice_prunable add fs ipt kpt gt now hash st p = .ok true) :
+    (p.is_fulfilled = true ∨ p.is_no_outgoing = .ok true) ∧
+    ∃ t3 t4 t5, add st.duration_since_epoch st.expiry_duration = .ok t3 ∧
+      add (fs 0) (match st.payment_type with | PaymentType.Invoice => ipt | PaymentType.Keysend => kpt) = .ok t4 ∧
+      add t3 t4 = .ok t5 ∧ gt now t5 = true := by
+  unfold Gen.FnNodePrune.NodeState.is_invoice_prunable at h
+  rw [C06_fn_prune_time] at h
+  cases h3 : add st.duration_since_epoch st.expiry_duration with
+  | error e =>
+    cases hf : p.is_fulfilled <;> cases hn : p.is_no_outgoing <;> simp [h3, hf, hn, bind, Except.bind, pure, Except.pure] at h
+  | ok t3 =>
+    cases h4 : add (fs 0) (match st.payment_type with | PaymentType.Invoice => ipt | PaymentType.Keysend => kpt) with
+    | error e =>
+      cases hf : p.is_fulfilled <;> cases hn : p.is_no_outgoing <;> simp [h3, h4, hf, hn, bind, Except.bind, pure, Except.pure] at h
+    | ok t4 =>
+      cases h5 : add t3 t4 with
+      | error e =>
+        cases hf : p.is_fulfilled <;> cases hn : p.is_no_outgoing <;> simp [h3, h4, h5, hf, hn, bind, Except.bind, pure, Except.pure] at h
+      | ok t5 =>
+        refine ⟨?_, t3, t4, t5, rfl, rfl, h5, ?_⟩
+        · cases hf : p.is_fulfilled with
+          | true => exact Or.inl rfl
+          | false =>
+            right
+            cases hn : p.is_no_outgoing with
+            | error e => simp [h3, h4, h5, hf, hn, bind, Except.bind, pure, Except.pure] at h
+            | ok b =>
+              simp [h3, h4, h5, hf, hn, bind, Except.bind, pure, Except.pure] at h
+              rw [h.2]
+        · cases hf : p.is_fulfilled <;> cases hn : p.is_no_outgoing <;>
+            simp [h3, h4, h5, hf, hn, bind, Except.bind, pure, Except.pure] at h <;> simp [h]
+
+/-- non-vacuity (durations as seconds): a keysend created at 1000 with 60 s expiry and 500 sat still outgoing is not prunable at
+    2000; with nothing outgoing it is, and not yet at 1060 -/
+example : Gen.FnNodePrune.NodeState.is_invoice_prunable (Duration := Nat) (PaymentHash := Nat) (PaymentPreimage := Nat) (ChannelId := Nat) (fun a b => .ok (a + b)) (fun s => s) 86400 0
+      (fun a b => decide (a > b)) 2000 7 ⟨1000, 60, .Keysend⟩ ⟨[(0, 500)], none⟩ = .ok false
+    ∧ Gen.FnNodePrune.NodeState.is_invoice_prunable (Duration := Nat) (PaymentHash := Nat) (PaymentPreimage := Nat) (ChannelId := Nat) (fun a b => .ok (a + b)) (fun s => s) 86400 0
+      (fun a b => decide (a > b)) 2000 7 ⟨1000, 60, .Keysend⟩ ⟨[(0, 0)], none⟩ = .ok true
+    ∧ Gen.FnNodePrune.NodeState.is_invoice_prunable (Duration := Nat) (PaymentHash := Nat) (PaymentPreimage := Nat) (ChannelId := Nat) (fun a b => .ok (a + b)) (fun s => s) 86400 0
+      (fun a b => decide (a > b)) 1060 7 ⟨1000, 60, .Keysend⟩ ⟨[(0, 0)], none⟩ = .ok false := ⟨rfl, rfl, rfl⟩
+end NodePrune
 
 end VlsModel.Props.C06Fn
